@@ -1,6 +1,7 @@
-CONSTANTS Heights <- MCHeights  Addrs = {1, 2}  Classes <- MCClasses  MaxPerBlock = 3  MaxTx = 4
+\* transition cover + the design-level invariants (mechanism = statement modulo Known_C42_SortInverted)
+CONSTANTS Heights <- MCHeights  Addrs = {1, 2}  Classes <- MCClasses  MaxPerBlock = 3  MaxTx = 3
           PageSizes = {1, 2, 3}  RecordHist = TRUE  SimDepth = 0
 INIT Init
 NEXT NextCover
 VIEW view
-INVARIANTS TypeOK
+INVARIANTS TypeOK C42_GetReturnsIndexed C42_PaginationPartitions C42_ScanExact C42_SearchExact SignerHeightIsLowerBound
